@@ -611,9 +611,14 @@ def main2(tier, replay, pool):
     # 3. concurrent: classes x uses x schedules
     n_cfg = 16 if quick else 60
     budget = 1800 if quick else 12000
-    for ci in range(n_cfg):
+    # the forced configurations come first (a deadline on a loaded machine truncates from the end); the
+    # first-mutation configuration right after the pre-fix race: it is the only place where that shape is
+    # run concurrently
+    forced_order = [0, 5, 1, 2, 3, 4, 6]
+    for cpos in range(n_cfg):
+        ci = forced_order[cpos] if cpos < len(forced_order) else cpos
         d = gen_valid(rng, tier)
-        nth = 2 if (quick or ci % 3) else 3
+        nth = 2 if (quick or cpos % 3) else 3
         u = gen_uses(rng, d, nth)
         if ci == 0:  # the configuration of the pre-fix race, always present
             d = {"classes": [{"attrs": [[0, "attr", 2, False, False, False, "int"], [1, "plain", 0, True, True, True, "int"]],
@@ -646,9 +651,10 @@ def main2(tier, replay, pool):
             # edges: the invalidation map (lazily generated metadata) is built by one thread while the
             # other thread's mutation looks it up (seeded C19-F1)
             d = gen_valid(rng, tier, force="inv")
+            # (the SAME class: the map is per class - spec class or plain subclass - and per metadata)
             tg = [t for t in I.targets_of(d) if I.mut_deps(d, t)]
-            t0_ = tg[-1]
-            u = [["mutate", t0_], ["mutate", t0_ if rng.random() < 0.7 else rng.choice(tg)]]
+            t0_ = tg[-1] if rng.random() < 0.5 else rng.choice(tg)
+            u = [["mutate", t0_], ["mutate", t0_]]
         elif ci == 6:  # the key handed over positionally by both threads, some __new__ using its arguments
             d = gen_valid(rng, tier, force="key")
             u = [[rng.choice(["instpos", "instposkw"]), I.targets_of(d)[-1]],
